@@ -262,11 +262,18 @@ def alias_for(name, used):
     raise RuntimeError
 
 
-def mbr_wrap(vol, ptype=0x0c, lead_sectors=8, tail=b''):
-    """a disk image: MBR + gap + volume (+ optional second partition bytes)"""
+def mbr_wrap(vol, ptype=0x0c, lead_sectors=8, tail=b'', slot=1):
+    """a disk image: MBR + gap + volume (+ optional second partition bytes); slot = primary slot (partition number)
+    of the volume, slot 1 then holding a small non-FAT partition inside the gap"""
     assert len(vol) % 512 == 0
     disk = bytearray(512 * lead_sectors) + vol + tail
     p1 = struct.pack('<B3sB3sII', 0x80, b'\0\0\0', ptype, b'\0\0\0', lead_sectors, len(vol) // 512)
+    if slot != 1:
+        assert not tail and lead_sectors >= 4
+        disk[446:462] = struct.pack('<B3sB3sII', 0, b'\0\0\0', 0x83, b'\0\0\0', 2, 2)
+        disk[446 + 16 * (slot - 1):462 + 16 * (slot - 1)] = p1
+        disk[510:512] = b'\x55\xaa'
+        return disk
     disk[446:462] = p1
     if tail:
         assert len(tail) % 512 == 0
